@@ -200,3 +200,20 @@ package verifh
 //@   modifies uint8
 //@   ensures[C10] fitsF32(v) ==> result3 == nil && result0 == f32of64(v) && result1 == result2
 //@   ensures[C10] !fitsF32(v) ==> result3 != nil
+
+// ---- C01, format level: the smallest message round trip proved from the callees' contracts
+//@ func MessageOneFieldInt32
+//@   requires b != nil
+//@   modifies buffer.len at b
+//@   modifies buffer.obj at b
+//@   modifies uint8
+//@   ensures[C01] result1 == nil && result0 == v
+//@   canary[C01] result0 == 0
+
+//@ func MessageTwoFields
+//@   requires b != nil && t1 < t2
+//@   modifies buffer.len at b
+//@   modifies buffer.obj at b
+//@   modifies uint8
+//@   ensures[C01] result2 == nil && result0 == v1 && result1 == v2
+//@   canary[C01] result1 == 0
